@@ -268,7 +268,8 @@ class Analysis:
             st["pydantic_parsed"] = n
         # (2) structural acceptor, all frameworks
         fm = oracle.FirstMatch(self.run.str_registry.types)
-        orc = oracle.Oracle(self.tab, fm, fw, self.name_to_key)
+        max_l = int(self.opts.get("max_literals", 10))
+        orc = oracle.Oracle(self.tab, fm, fw, self.name_to_key, literal_rule={"enabled": fw != "attrs" and max_l > 0, "max": max_l})
         self.orc = orc
         errs = orc.acceptance(roots)
         for kind, path, msg in errs[:5]:
